@@ -53,6 +53,9 @@ func (c *Ctx) newDoneAnalysis() *doneAnalysis {
 }
 
 func (da *doneAnalysis) isHandoffChan(v ssa.Value) bool {
+	if _, isPhi := v.(*ssa.Phi); isPhi {
+		return allChanChoices(v, da.isHandoffChan)
+	}
 	f, _ := core.LoadedField(core.Strip(v))
 	for _, h := range da.handoff {
 		if h == f {
@@ -275,7 +278,7 @@ func (c *Ctx) checkInflightPairing() {
 					r.Func(fk(fn))
 					edges := selectCaseEdges(sel, i)
 					target := func(x ssa.Instruction) bool { return x == ssa.Instruction(sel) || core.IsReturn(x) }
-					found, _ := core.PathFromEdgeAvoiding(fn, edges, target, da.isDischarge, da.cuts(fn))
+					found, _ := pathFromEdgeAvoidingNil(fn, edges, target, da.isDischarge, da.cuts(fn))
 					culprit := ""
 					if found {
 						core.AllInstrs(fn, func(x ssa.Instruction) {
